@@ -27,6 +27,30 @@ var table = map[string]propInfo{
 		rule: "outer: (S, K) drawn by rapid and compiled;" + innerRule + " C04: NF(CopyFrom(CopyTo(x, empty))) == NF(x) with the documented normal form. " +
 			"Non-trivial: >= 1 non-zero leaf below a list/map/oneof/nested message. Distinct by hash of the value's normal form.",
 	},
+	"C05": {
+		quick:    budget{checks: 32, shards: 16, inner: 300},
+		thorough: budget{checks: 300, shards: 16, inner: 2000},
+		rule: "outer: (S, K) drawn by rapid and compiled;" + innerRule + " C05: a conforming object (any node null / unknown / known, decoded by the framework from a generated tftypes.Value) and its payload twin (same object, every null/unknown node additionally carries a payload) are copied into a zero struct and into a populated struct; the four results must agree, null/unknown attributes must leave zero fields, excluded fields must stay untouched. " +
+			"Non-trivial: the object has a null/unknown node below the root. Distinct by hash of (object, prior target).",
+	},
+	"C07": {
+		quick:    budget{checks: 32, shards: 16, inner: 300},
+		thorough: budget{checks: 300, shards: 16, inner: 2000},
+		rule: "outer: oneof-heavy (S, K) drawn by rapid and compiled;" + innerRule + " C07: a history of 1-4 CopyFrom calls of objects with at most one known non-null member per group into one target with arbitrary prior branches, then CopyTo of a generated value into an empty object; holders and null flags of every group at every depth are compared with the statement. " +
+			"Non-trivial: a group with >= 2 members or a group below the root was exercised. Distinct by hash of the history.",
+	},
+	"C08": {
+		quick:    budget{checks: 32, shards: 16, inner: 300},
+		thorough: budget{checks: 300, shards: 16, inner: 2000},
+		rule: "outer: (S, K) drawn by rapid and compiled;" + innerRule + " C08: plans from P(S) (null / unknown / known incl. known zero values at every node, <= 1 non-null member per oneof, numbers within the Go field's range) are copied into a fresh struct and back into the plan; the result is compared path-wise with the plan and decoded again. " +
+			"Non-trivial: the plan mixes >= 1 null, >= 1 unknown and >= 1 known zero node. Distinct by hash of the plan.",
+	},
+	"C09": {
+		quick:    budget{checks: 32, shards: 16, inner: 200},
+		thorough: budget{checks: 300, shards: 16, inner: 1500},
+		rule: "outer: (S, K) drawn by rapid and compiled;" + innerRule + " C09: histories of 1-6 in-place CopyTo calls (new values are mutations of the previous one: lists grow, shrink, become empty or nil, maps lose or gain keys, pointers flip) compared after every step with a CopyTo of the same source into an empty object; every step is repeated to check idempotence. " +
+			"Non-trivial: some collection changed length or key set between steps. Distinct by hash of the history.",
+	},
 	"C10": {
 		quick:    budget{checks: 48, shards: 16, inner: 1},
 		thorough: budget{checks: 600, shards: 16, inner: 1},
